@@ -73,9 +73,17 @@ func prepareWire(w *runner.Workspace, specs []*spec.Spec, repeatMigrate int) []*
 				}
 				base.WriteFile(filepath.Join(w.Root, "progs", side.Name, name), content)
 			}
+			for name, content := range s.ExtraWireFiles {
+				base.WriteFile(filepath.Join(w.Root, "progs", side.Name, name), strings.ReplaceAll(content, "{{PKG}}", spec.ModulePath+"/progs/"+side.Name))
+			}
 		}
 		if b, err := os.ReadFile(filepath.Join(p.WDir, "wire_sets.go")); err == nil {
 			for _, m := range reSetVar.FindAllStringSubmatch(string(b), -1) {
+				p.SetNames = append(p.SetNames, m[1])
+			}
+		}
+		for _, content := range s.ExtraWireFiles {
+			for _, m := range reSetVar.FindAllStringSubmatch(content, -1) {
 				p.SetNames = append(p.SetNames, m[1])
 			}
 		}
@@ -128,6 +136,9 @@ func prepareWire(w *runner.Workspace, specs []*spec.Spec, repeatMigrate int) []*
 		// set the wire files aside
 		os.Remove(filepath.Join(p.KDir, "wire.go"))
 		os.Remove(filepath.Join(p.KDir, "wire_sets.go"))
+		for name := range p.S.ExtraWireFiles {
+			os.Remove(filepath.Join(p.KDir, name))
+		}
 		g := base.Cmd{Dir: p.KDir, Name: w.CLI, Args: []string{"kessoku.go"}}.Run()
 		p.GenExit, p.GenErr = g.Exit, g.Stderr
 		if b, err := os.ReadFile(filepath.Join(p.KDir, "kessoku_band.go")); err == nil {
